@@ -49,7 +49,11 @@ def cases(rng, tier, shard, nshards, phase):
     total = N_THOROUGH if tier == "thorough" else N_QUICK
     if phase.startswith("search"):
         total *= 2
+    eng_share = 0.5 if phase.startswith("search") else 0.1
     for _ in range(total // nshards):
+        if rng.random() < eng_share:
+            yield engineered_case(rng)
+            continue
         rule = rng.choice(["STV", "STV", "STV", "IRV"])
         spec = gen.gen_ranked_spec(rng, nmin=2, nmax=6, ties=False, partial=True, bmin=1, bmax=9)
         n = len(spec["c"])
@@ -90,6 +94,54 @@ def cases(rng, tier, shard, nshards, phase):
                 b["w"] = rat(max(1, int(Fraction(b["w"]))))
         rng.shuffle(spec["b"])
         yield {"rule": rule, "cfg": cfg, "spec": spec, "rs": rng.randint(0, 10 ** 9), "planted": planted}
+
+
+def engineered_case(rng):
+    """Two families aimed at the places where a coalition's quotas can leak:
+    (a) several candidates reach the threshold in the same round with exactly equal tallies and a surplus that the
+        coalition's next member needs (simultaneous elections);
+    (b) random transfer from a winner whose pile mixes coalition ballots with ballots that continue elsewhere, the
+        coalition holding exactly k quotas (every draw of the sample matters)."""
+    if rng.random() < 0.5:
+        pairs = rng.randint(2, 3)
+        n = 2 * pairs + rng.randint(1, 2)
+        names = gen.gen_names(rng, n)
+        cs = list(range(n))
+        rng.shuffle(cs)
+        w = rng.randint(6, 14)
+        bs = []
+        for i in range(pairs):
+            a, b = cs[2 * i], cs[2 * i + 1]
+            bs.append({"r": [[a], [b]], "w": str(w), "s": []})
+        for j, x in enumerate(cs[2 * pairs:]):
+            bs.append({"r": [[x]], "w": str(rng.randint(1, 3)), "s": []})
+        m = min(n, 2 * pairs)
+        cfg = {"quota": "droop", "tiebreak": rng.choice(["random", "borda", "first_place"]), "m": m,
+               "simultaneous": rng.random() < 0.8}
+        if rng.random() < 0.3:
+            cfg["transfer"] = "random"
+        rng.shuffle(bs)
+        return {"rule": "STV", "cfg": cfg, "spec": {"names": names, "b": bs, "c": list(range(n))},
+                "rs": rng.randint(0, 10 ** 9), "planted": "tied-winners-with-surplus"}
+    n = rng.randint(3, 4)
+    names = gen.gen_names(rng, n)
+    cs = list(range(n))
+    rng.shuffle(cs)
+    a, b, x = cs[0], cs[1], cs[2]
+    m = 2
+    # coalition {a, b} with exactly 2 quotas: a>b>x (u), a>x>b (v) are solid for {a}; only a>b>x ... is solid for {a,b}
+    for _ in range(50):
+        u, v, t = rng.randint(6, 14), rng.randint(1, 4), rng.randint(1, 3)
+        N = u + v + t
+        q = N // (m + 1) + 1
+        if u >= 2 * q and u + v - q >= 1:
+            break
+    bs = [{"r": [[a], [b], [x]], "w": str(u), "s": []}, {"r": [[a], [x], [b]], "w": str(v), "s": []},
+          {"r": [[x], [b], [a]], "w": str(t), "s": []}]
+    rng.shuffle(bs)
+    cfg = {"quota": "droop", "tiebreak": "random", "m": m, "simultaneous": rng.random() < 0.5, "transfer": "random"}
+    return {"rule": "STV", "cfg": cfg, "spec": {"names": names, "b": bs, "c": list(range(n))},
+            "rs": rng.randint(0, 10 ** 9), "planted": "mixed-pile-random-transfer"}
 
 
 def run_case(vk, case):
